@@ -3,10 +3,11 @@
    with the complete sibling trees in front of it, its id, size-field width and DECLARED size — which may exceed what is
    there), the complete trees at the innermost level, and the tail: nothing (the cut is on a tag boundary) or the first k
    bytes of one more tag x (0 < k < cut_limit x: a master counts as complete once its header is).
-   PARTIAL: declared paths without global placeholders; the theorem is about truncated documents so described (that every
-   prefix of every valid document has this form is not proved in Coq; the correspondence run cuts generated documents at
-   every byte position and compares with an independently computed expectation). *)
-From Ebml Require Import Base Tools Spec Writer Reader Pure Encode Proofs.Tactics Proofs.ReaderIO Proofs.Refine Proofs.PureProofs Proofs.RoundTrip Proofs.Partial.
+   Every prefix of the encoding of every conforming document is such a truncated document: [cut_doc f k]
+   (Proofs/CutExists.v) computes it for the first k bytes of [enc_forest f], and [C12_every_cut_partial] states the run of
+   the reader on that prefix.
+   PARTIAL: only in that the declared paths are without global placeholders (the scope of [conf], as in C01). *)
+From Ebml Require Import Base Tools Spec Writer Reader Pure Encode Proofs.Tactics Proofs.ReaderIO Proofs.Refine Proofs.PureProofs Proofs.RoundTrip Proofs.Partial Proofs.CutExists.
 
 (* the reader yields exactly: the items of everything complete (Starts of the open masters included; Ends of complete
    masters lazily, as always), then
@@ -30,6 +31,23 @@ Theorem C12_truncated_tag : forall c st T stk ids ext x k, strict c -> c_buffere
   forall n, snd (p_run_all (exhausted_count (b_off st) (T ++ stk) + S n) c st) =
             map end_out (firstn (exhausted_count (b_off st) (T ++ stk)) (T ++ stk)) ++ [OErr (cut_error (b_off st) x k)].
 Proof. exact truncated_tag. Qed.
+
+(* every cut of every conforming document, at every byte position 0 <= k <= length: the first k bytes ARE the truncated document
+   [cut_doc f k] (it conforms, and its encoding is the prefix) ... *)
+Theorem C12_cut_doc_correct : forall c f k, Forall (conf c []) f -> (k <= length (enc_forest f))%nat ->
+  conf_tdoc c (cut_doc f k) /\ enc_tdoc (cut_doc f k) = firstn k (enc_forest f).
+Proof. exact cut_doc_correct. Qed.
+
+(* ... so the reader run on the prefix yields exactly the outputs described above for [cut_doc f k] *)
+Theorem C12_every_cut_partial : forall c f k, strict c -> c_buffered c = [] -> c_emit_eof c = true -> Forall (conf c []) f ->
+  (k <= length (enc_forest f))%nat -> p_run c (firstn k (enc_forest f)) [RAll] = out_tdoc (cut_doc f k).
+Proof. exact every_prefix_reads. Qed.
+
+(* ... for every buffer capacity and chunking *)
+Theorem C12_every_cut_buffered_partial : forall c f k cap0 script, calm script -> strict c -> c_buffered c = [] -> c_emit_eof c = true ->
+  Forall (conf c []) f -> (k <= length (enc_forest f))%nat ->
+  run_reader c cap0 script (firstn k (enc_forest f)) [RAll] = out_tdoc (cut_doc f k).
+Proof. intros c f k cap0 script Hc. rewrite buffered_refines_pure by exact Hc. apply every_prefix_reads. Qed.
 
 Definition C12_sp : spec :=
   [ {| e_id := 129; e_ty := DMaster; e_path := [] |}; {| e_id := 16643; e_ty := DMaster; e_path := [PId 129] |};
@@ -86,4 +104,38 @@ Example C12_ex_run :
   p_run C12_cfg (enc_tdoc (C12_td (CutTag C12_next 2))) [RAll] =
     [OItem (TStart 129) 0; OItem (TElem 16641 (VU 5)) 2; OItem (TStart 16643) 6; OItem (TElem 16642 (VB [7])) 9;
      OErr (REof 13 (Some 16642) None None)].
+Proof. vm_compute. repeat split; reflexivity. Qed.
+
+(* [cut_doc] on a complete nested document, Root { UInt 5; Parent { Bin [7]; Bin [1;2;3;4] } } (20 bytes; declared sizes 18 and
+   11), cut after 13 bytes (on the boundary in front of the last element), after 14 (inside its id) and after 18 (inside its
+   payload): the same open masters as above, now with their true declared sizes, and the same runs *)
+Definition C12_doc : list rtree :=
+  [RNode 129 (Some 1%nat) [RLeaf 16641 (VU 5) [5] 1%nat; RNode 16643 (Some 1%nat) [RLeaf 16642 (VB [7]) [7] 1%nat; C12_next]]].
+Definition C12_cut_levels : list level :=
+  [ {| lv_f := []; lv_id := 129; lv_sl := 1; lv_size := Some 18 |};
+    {| lv_f := [RLeaf 16641 (VU 5) [5] 1%nat]; lv_id := 16643; lv_sl := 1; lv_size := Some 11 |} ].
+Definition C12_cut_td (tl : cut_tail) : tdoc :=
+  {| td_levels := C12_cut_levels; td_f := [RLeaf 16642 (VB [7]) [7] 1%nat]; td_tail := tl |}.
+
+Example C12_ex_cut :
+  enc_forest C12_doc = [129; 146; 65; 1; 129; 5; 65; 3; 139; 65; 2; 129; 7; 65; 2; 132; 1; 2; 3; 4] /\
+  cut_doc C12_doc 13 = C12_cut_td CutBoundary /\
+  cut_doc C12_doc 14 = C12_cut_td (CutTag C12_next 1) /\
+  cut_doc C12_doc 18 = C12_cut_td (CutTag C12_next 5) /\
+  cut_doc C12_doc 7 =
+    {| td_levels := [ {| lv_f := []; lv_id := 129; lv_sl := 1; lv_size := Some 18 |} ]; td_f := [RLeaf 16641 (VU 5) [5] 1%nat];
+       td_tail := CutTag (RNode 16643 (Some 1%nat) [RLeaf 16642 (VB [7]) [7] 1%nat; C12_next]) 1 |} /\
+  cut_doc C12_doc 20 = {| td_levels := []; td_f := C12_doc; td_tail := CutBoundary |} /\
+  p_run C12_cfg (firstn 13 (enc_forest C12_doc)) [RAll] =
+    [OItem (TStart 129) 0; OItem (TElem 16641 (VU 5)) 2; OItem (TStart 16643) 6; OItem (TElem 16642 (VB [7])) 9;
+     OItem (TEnd 16643) 6; OItem (TEnd 129) 0; ONone] /\
+  p_run C12_cfg (firstn 14 (enc_forest C12_doc)) [RAll] =
+    [OItem (TStart 129) 0; OItem (TElem 16641 (VU 5)) 2; OItem (TStart 16643) 6; OItem (TElem 16642 (VB [7])) 9;
+     OErr (REof 13 None None None)] /\
+  p_run C12_cfg (firstn 18 (enc_forest C12_doc)) [RAll] =
+    [OItem (TStart 129) 0; OItem (TElem 16641 (VU 5)) 2; OItem (TStart 16643) 6; OItem (TElem 16642 (VB [7])) 9;
+     OErr (REof 13 (Some 16642) (Some 4) (Some [1; 2]))] /\
+  out_tdoc (cut_doc C12_doc 13) = p_run C12_cfg (firstn 13 (enc_forest C12_doc)) [RAll] /\
+  out_tdoc (cut_doc C12_doc 14) = p_run C12_cfg (firstn 14 (enc_forest C12_doc)) [RAll] /\
+  out_tdoc (cut_doc C12_doc 18) = p_run C12_cfg (firstn 18 (enc_forest C12_doc)) [RAll].
 Proof. vm_compute. repeat split; reflexivity. Qed.
